@@ -50,6 +50,8 @@ def jobs(tier):
 BOUNDS = {'quick': '8 source scenarios + 2-line sources; pre-existing output / temp file absent or ANY bytes (0-255, so also invalid UTF-8 and '
                    'truncations inside a multi-byte character) of length 0-3',
           'thorough': 'pre-states of length 0-6, all 2-line sources'}
+from . import project as _project
+BOUNDS = {k: v + _project.bounds_note('C08', k) for k, v in BOUNDS.items()}
 ASSUMPTIONS = ['D1-D12; generated paths hold regular files or nothing (no directories / symlinks)',
                'SIGKILL at any point is over-approximated by "arbitrary content of the generated paths"; real signal delivery is not modelled']
 COVERS_REQUIRED = ['both_ok', 'both_fail', 'temp', 'deps_reported_Build', 'tree_twice']
